@@ -169,7 +169,9 @@ class IsValidExpression:
     (False, reason); otherwise (True, None); InvalidExpressionError / SyntaxError never escape"""
     cases = _str_or_tree_cases()
     raises = {"Exception": None, "NotImplementedError": None}
-    never_raises = ["SyntaxError", "VisitError"]
+    # `Exception` stands for what user-supplied evaluators raise (modelled as that very class); ValueError also is the
+    # rejection of a key outside every number range (C18: 'Muss [0]'), so it cannot be forbidden here
+    never_raises = ["SyntaxError", "VisitError", "UnboundLocalError", "NameError", "AttributeError", "IndexError"]
     clause_props = {"post_shape": ["C02", "C06"], "post_reported_invalid_is_invalid": ["C06"],
                     "post_invalid_is_reported": ["C06"], "raises-only-declared": ["C02", "C06"],
                     "post_keys_are_sanitised_before_generation": ["C06", "C18"]}
